@@ -234,7 +234,7 @@ pub(crate) fn genuine(g: u8) -> Certificate {
 pub(crate) fn attacker(g: u8) -> Certificate {
     rig::cert((g as usize + 1) % 5)
 }
-fn third(g: u8) -> Certificate {
+pub(crate) fn third(g: u8) -> Certificate {
     rig::cert((g as usize + 2) % 5)
 }
 
@@ -1678,7 +1678,7 @@ where
 
 pub fn run(ctx: &mut Ctx) {
     ctx.level = "fault_enumeration";
-    ctx.rule = "two real rustrtc DTLS endpoints over the harness network; the victim (either DTLS role) expects fingerprint F in {genuine identity's, attacker's, an unrelated certificate's, the presented leaf's, none}; the peer is a self-consistent endpoint with an assembled certificate: (i) genuine chain+key, (ii) attacker chain+key, (iii) genuine chain + attacker key, (iv) empty chain, [the genuine identity's certificate itself is ECDSA P-256 made by rustrtc or - leaf kinds - a real RSA-2048 / Ed25519 / ECDSA P-384 / secp256k1 certificate, or a P-256 certificate re-fitted with an unknown-OID / truncated / non-DER SubjectPublicKeyInfo; nobody holds a foreign leaf's key, its presenter signs with the attacker's P-256 key] (v) genuine leaf with a flipped bit / truncation / overwritten byte, (vi) two-certificate chain mixing genuine and attacker certificate with the attacker's key; on top 0-3 on-path operators addressed by sender, message class and transmission ordinal: drop, duplicate, hold back (reorder), omit every transmission, omit + close the message_seq gap, bit flip / truncate / set byte anywhere, bit flip inside the handshake body, splice Certificate / ServerKeyExchange / whole server flight recorded in another session of the genuine identity (record sequence moved forward), extended-master-secret downgrade of the ClientHello, Finished re-sealed with one verify_data bit flipped by a key-knowing relay, extra epoch-0 application-data record. Takeover sub-checks: a harness-implemented active on-path party obtains the genuine server's signed flight for the victim's ClientHello, presents the victim client with a flight mixing genuine messages with a ServerKeyExchange carrying its own P-256 share (garbage / empty / copied-genuine / attacker-key signature), the attacker's Certificate, a second ServerHello with another random, duplicates or omissions, message_seq continued or colliding, and then completes the handshake itself (ring ECDH, own PRF/Finished, AES-GCM records) on every key schedule derivable from its share, else relays to the genuine server; fixed grid of named shapes + proptest insertions. Sub-checks: full peer x F matrix, random cases, single-bit flips of the Certificate and ServerKeyExchange datagrams (quick: all header bits + 1/11 of the rest; thorough: every bit), fixed key-confirmation cases, server-role probe. Non-trivial = the peer is an impostor or F does not name it, or at least one operator fired; distinct by case digest.".into();
+    ctx.rule = "two real rustrtc DTLS endpoints over the harness network; the victim (either DTLS role) expects fingerprint F in {genuine identity's, attacker's, an unrelated certificate's, the presented leaf's, none}; the peer is a self-consistent endpoint with an assembled certificate: (i) genuine chain+key, (ii) attacker chain+key, (iii) genuine chain + attacker key, (iv) empty chain, [the genuine identity's certificate itself is ECDSA P-256 made by rustrtc or - leaf kinds - a real RSA-2048 / Ed25519 / ECDSA P-384 / secp256k1 certificate, or a P-256 certificate re-fitted with an unknown-OID / truncated / non-DER SubjectPublicKeyInfo; nobody holds a foreign leaf's key, its presenter signs with the attacker's P-256 key] (v) genuine leaf with a flipped bit / truncation / overwritten byte, (vi) two-certificate chain mixing genuine and attacker certificate with the attacker's key; on top 0-3 on-path operators addressed by sender, message class and transmission ordinal: drop, duplicate, hold back (reorder), omit every transmission, omit + close the message_seq gap, bit flip / truncate / set byte anywhere, bit flip inside the handshake body, splice Certificate / ServerKeyExchange / whole server flight recorded in another session of the genuine identity (record sequence moved forward), extended-master-secret downgrade of the ClientHello, Finished re-sealed with one verify_data bit flipped by a key-knowing relay, extra epoch-0 application-data record. Takeover sub-checks: a harness-implemented active on-path party obtains the genuine server's signed flight for the victim's ClientHello, presents the victim client with a flight mixing genuine messages with a ServerKeyExchange carrying its own P-256 share (garbage / empty / copied-genuine / attacker-key signature), the attacker's Certificate, a second ServerHello with another random, duplicates or omissions, message_seq continued or colliding, and then completes the handshake itself (ring ECDH, own PRF/Finished, AES-GCM records) on every key schedule derivable from its share, else relays to the genuine server; fixed grid of named shapes + proptest insertions. Injection sub-checks: towards a client victim facing an impostor server (attacker's / unrelated certificate, own key; genuine as control) an on-path party injects epoch-0 alert records (close_notify and 7 other descriptions, warning/fatal) in front of any message of the server flight or behind it, and/or runs a HelloVerifyRequest cookie exchange (cookie 1-32 bytes, optionally a second HVR) before relaying the ClientHello; state followed through Closed, keying-material export and application channel probed whatever state is reported. Sub-checks: full peer x F matrix, random cases, single-bit flips of the Certificate and ServerKeyExchange datagrams (quick: all header bits + 1/11 of the rest; thorough: every bit), fixed key-confirmation cases, server-role probe. Non-trivial = the peer is an impostor or F does not name it, or at least one operator fired; distinct by case digest.".into();
     ctx.assumptions = vec![
         "oracle inputs are the datagrams recorded at the entrance of each endpoint's DTLS layer plus the victim's published state/keys; the victim's own decisions are never trusted".into(),
         "'proved possession of the corresponding private key' for a client victim = a ServerKeyExchange delivered in this handshake whose ECDSA signature verifies (ring) under the P-256 key found in the leaf that hashes to F, over a ClientHello random the victim sent, a ServerHello random delivered to it and the ECDH parameters; plus key confirmation: a delivered Finished whose verify_data matches a transcript the victim can have seen (RFC 5246 7.4.9)".into(),
@@ -1738,6 +1738,8 @@ pub fn run(ctx: &mut Ctx) {
 
     // 7. active on-path party that finishes the handshake itself (c02_takeover.rs)
     super::c02_takeover::run_subs(ctx, &rt, tm, conc);
+    // 8. unauthenticated messages injected before the Certificate: alerts, HelloVerifyRequest (c02_inject.rs)
+    super::c02_inject::run_subs(ctx, &rt, tm, conc);
 
     let skipped = sh.server_auth_skipped.load(Ordering::Relaxed);
     if skipped > 0 {
